@@ -50,7 +50,7 @@ def power_basis(coeffs):
     return out
 
 
-COORD_FAMILIES = ["int", "grid", "dyadic", "float", "big", "collinear", "coincident", "arch", "elevated"]
+COORD_FAMILIES = ["int", "grid", "dyadic", "float", "big", "collinear", "coincident", "arch", "elevated", "retracted", "teardrop", "axischord"]
 
 
 def rand_coord(rng, fam):
@@ -79,6 +79,35 @@ def rand_seg_pts(rng, order, fam):
         pts[j] = pts[k]
         if rng.random() < 0.3:
             pts = [pts[0]] * order
+    elif fam == "retracted" and order >= 3:
+        # handles sitting on the end points (both, or one): the image is the chord but the parametrisation is not linear
+        if order == 4:
+            r = rng.random()
+            if r < 0.6:
+                pts = [pts[0], pts[0], pts[3], pts[3]]
+            elif r < 0.8:
+                pts = [pts[0], pts[0], pts[2], pts[3]]
+            else:
+                pts = [pts[0], pts[1], pts[3], pts[3]]
+        else:
+            pts = [pts[0], pts[0] if rng.random() < 0.5 else pts[2], pts[2]]
+    elif fam == "teardrop" and order >= 3:
+        # end points coincident (or within a unit of each other) while the arc is long: loops, hairpins, lobes
+        x0, y0 = pts[0]
+        r = rng.random()
+        gap = 0.0 if r < 0.5 else (rng.choice([1e-12, 0.5, 1.0, 1.5]) if r < 0.9 else 4.0)
+        far = [(x0 + rng.choice([-1, 1]) * rng.uniform(100, 600), y0 + rng.choice([-1, 1]) * rng.uniform(100, 600)) for _ in range(order - 2)]
+        if order == 4 and rng.random() < 0.5:
+            far = [(x0 + 300.0, y0), (x0 + 300.0, y0 + 4.0)]          # hairpin
+            gap = 4.0 if gap else 0.0
+            pts = [(x0, y0)] + far + [(x0, y0 + gap)]
+        else:
+            pts = [(x0, y0)] + far + [(x0 + gap, y0)]
+    elif fam == "axischord":
+        # chord exactly horizontal or vertical, pointing either way
+        x0, y0 = pts[0]
+        d = rng.choice([-1, 1]) * (abs(rand_coord(rng, base)) + 1.0)
+        pts = pts[:-1] + ([(x0 + d, y0)] if rng.random() < 0.6 else [(x0, y0 + d)])
     elif fam == "arch" and order >= 3:
         # symmetric arch: the derivative of one coordinate loses its leading term
         x0, y0 = pts[0]
@@ -101,6 +130,14 @@ def rand_seg_pts(rng, order, fam):
             b = (2.0 * rng.randint(-30, 30), 2.0 * rng.randint(-30, 30))
             pts = [a, ((a[0] + b[0]) / 2, (a[1] + b[1]) / 2), b]
     return [(float(x), float(y)) for x, y in pts]
+
+
+def chain_seg(rng, cur, order=None, fams=("int", "int", "float", "teardrop", "retracted", "coincident", "arch")):
+    """a segment from one of the families, translated so that it starts at `cur` (keeps loops / retracted handles intact)"""
+    order = order or rng.choice([2, 3, 4])
+    pts = rand_seg_pts(rng, order, rng.choice(fams))
+    dx, dy = cur[0] - pts[0][0], cur[1] - pts[0][1]
+    return [(float(x + dx), float(y + dy)) for x, y in pts]
 
 
 def rand_t(rng, fam="mixed"):
@@ -201,3 +238,68 @@ def extent(pts):
     xs = [p[0] for p in pts]
     ys = [p[1] for p in pts]
     return max(max(xs) - min(xs), max(ys) - min(ys))
+
+
+# ----------------------------------------------------------------------------- in-place edits (stale-state checks)
+
+def edit_in_place(seg, rng):
+    """Change the control points of a live segment through one of the routes the library itself offers or uses:
+    seg[i] = Point (Segment.__setitem__), seg.points[i] = Point, mutation of a Point's coordinates, seg.round().
+    Returns (route, new control points read back from the object)."""
+    from beziers.point import Point
+    n = len(seg.points)
+    ext = extent([(p.x, p.y) for p in seg.points])
+    d = ext * rng.choice([0.4, 0.75, 1.5]) + 1.0
+    route = rng.choice(["setitem", "points", "coords", "round"])
+    if route == "setitem":
+        j = rng.randrange(n)
+        seg[j] = Point(seg[j].x + d, seg[j].y - d / 2)
+        if n > 2:
+            k = (j + 1) % n
+            seg[k] = Point(seg[k].x - d / 3, seg[k].y + d)
+    elif route == "points":
+        j = rng.randrange(n)
+        seg.points[j] = Point(seg.points[j].x - d, seg.points[j].y + d / 2)
+    elif route == "coords":
+        j = rng.randrange(n)
+        seg[j].x = seg[j].x + d
+        seg[-1].y = seg[-1].y - d
+    else:
+        for q in seg.points:
+            q.x = q.x + 0.4 + 0.1 * rng.randrange(5)
+            q.y = q.y - 0.3
+        seg[n // 2].x = seg[n // 2].x + d
+        seg.round()
+    return route, [(q.x, q.y) for q in seg.points]
+
+
+def _val(fn, seg):
+    try:
+        v = fn(seg)
+    except Exception as e:           # the same failure on both objects is not staleness
+        return ("raised", type(e).__name__)
+    if hasattr(v, "x") and hasattr(v, "y"):
+        return (v.x, v.y)
+    if isinstance(v, (list, tuple)):
+        return tuple((w.x, w.y) if hasattr(w, "x") else (tuple((q.x, q.y) for q in w.points) if hasattr(w, "points") else w) for w in v)
+    return v
+
+
+def stale_check(pts, seed, queries):
+    """answers are a function of the segment as it is NOW: put every query to a live segment (so that anything it remembers is
+    remembered), change its control points in place by one of the routes in edit_in_place, put the queries again: each answer must be
+    exactly the answer of a fresh segment built from the control points read back after the edit.
+    queries: list of (name, fn(segment) -> value)."""
+    import random
+    rng = random.Random(seed)
+    seg = mkseg(pts)
+    for _, fn in queries:
+        _val(fn, seg)
+    route, new = edit_in_place(seg, rng)
+    fresh = mkseg(new)
+    for name, fn in queries:
+        a, b = _val(fn, seg), _val(fn, fresh)
+        if a != b and not (a != a and b != b):
+            return "after changing the control points in place (%s) %s answers %r; a fresh segment with the same control points %r answers %r (stale state)" % (
+                route, name, a, new, b)
+    return None
